@@ -27,7 +27,7 @@ use crate::{
     sched::{Chooser, HookMode, HookStats, SchedTape, install_controller},
     seq::{Runner, StepCtx},
     tape::Tape,
-    util::{RunError, run_paused},
+    util::{RunError, run_paused_ev},
 };
 
 #[derive(Debug, Clone, Copy, PartialEq, Eq)]
@@ -532,6 +532,9 @@ pub fn decode_c02(bytes: &[u8], tier: Tier) -> ConcCase {
 
 pub fn exec(case: &ConcCase, check_c03: bool) -> Result<(ConcOutcome, crate::seq::Outcome), RunError> {
     let case = case.clone();
+    // half of the cases let the case's tasks run between two polls of a task
+    // the engine spawned (the commit of a dropped session); see run_paused_ev
+    let ev = if case.knobs[2] & 1 == 1 { 1 } else { 61 };
     if case.use_b {
         let store = Arc::new(Store::new());
         let mut b = BackendB::from_knobs(store, case.knobs);
@@ -540,9 +543,9 @@ pub fn exec(case: &ConcCase, check_c03: bool) -> Result<(ConcOutcome, crate::seq
         if b.mode == crate::backend::CommitMode::Manual {
             b.mode = crate::backend::CommitMode::StepDrain;
         }
-        run_paused(async move { run_conc(b, &case, check_c03).await })
+        run_paused_ev(ev, async move { run_conc(b, &case, check_c03).await })
     } else {
-        run_paused(async move { run_conc(BackendA, &case, check_c03).await })
+        run_paused_ev(ev, async move { run_conc(BackendA, &case, check_c03).await })
     }
 }
 
@@ -595,7 +598,7 @@ pub fn check(prop: &'static str, tier: Tier) -> Report {
     let seed = env_seed();
     let mut report = Report { property: prop.into(), ..Report::default() };
     let rule = match prop {
-        "C04" => "case = In/Nq program x phases: one writer task (1..3 sessions of 0..3 set_input each, commit() or drop) concurrently with 1..4 reader tasks (loops of tracked(); 1..3 queries; drop), all scheduled on one thread by the schedule tape at every await and at the verif_hooks yield/preempt points (incl. the windows between new batch / epoch bump / phase-lock wait of input_session() and phase-lock / timestamp load of tracked()); oracle: all values of one tracked engine equal the from-scratch values of ONE committed snapshot k with lo <= k <= hi, plus a fresh reader after each concurrent phase; progress by the idle-runtime oracle; non-trivial = a reader query was issued while a session was open; distinct = distinct case bytes",
+        "C04" => "case = In/Nq program x phases: one writer task (1..3 sessions of 0..3 set_input each, commit() or drop) concurrently with 1..4 reader tasks (loops of tracked(); 1..3 queries; drop), all scheduled on one thread by the schedule tape at every await and at the verif_hooks yield/preempt points (incl. the windows between new batch / epoch bump / phase-lock wait of input_session() and phase-lock / timestamp load of tracked()); in half of the cases (knob bit) the runtime polls the case between any two polls of an engine-spawned task (event_interval 1), so readers also run inside the commit task of a dropped session; oracle: all values of one tracked engine equal the from-scratch values of ONE committed snapshot k with lo <= k <= hi, plus a fresh reader after each concurrent phase; progress by the idle-runtime oracle; non-trivial = a reader query was issued while a session was open; distinct = distinct case bytes",
         _ => "case = full program (no external inputs) x rounds of 2..6 concurrent reader tasks over overlapping roots scheduled by the tape + hooks, each round followed by an input edit and a re-query; oracle: from-scratch values for every user value and every dependency read, per-key executor overlap detector (single flight), idle-runtime termination oracle, final re-query of every node; non-trivial = at least one poll with more than one runnable task and at least one hook yield; distinct = distinct case bytes",
     };
     let mut ev = Evidence::new(prop, tier.name(), seed, "exploration", rule);
